@@ -4,6 +4,7 @@ import (
 	"fmt"
 	"go/ast"
 	"go/constant"
+	"go/token"
 	"go/types"
 	"sort"
 	"strings"
@@ -261,6 +262,8 @@ func ruleBoundScoped(c *Ctx, only func(*Func) bool) {
 				c.R.Violate("R-BOUND/req", p.Pos(op.Ast), f.Name, construct, "no cancellation arm ("+op.Desc+"); "+rq.Why, nil)
 			case rq.TimerSrc != "" && !p.timerFromField(f, op, rq.TimerSrc):
 				c.R.Violate("R-BOUND/req", p.Pos(op.Ast), f.Name, construct, "timer duration "+op.Timer+" does not originate from "+rq.TimerSrc, nil)
+			case p.timerRearmed(f, op) != "":
+				c.R.Violate("R-BOUND/req", p.Pos(op.Ast), f.Name, construct, "the bounding timer is created anew on every pass of the enclosing loop and "+p.timerRearmed(f, op)+" sends control back into the loop: the timer bounds the quiet interval between two such events, not the wait; "+rq.Why, nil)
 			case rq.MaxConst > 0 && (op.TimerK <= 0 || op.TimerK > rq.MaxConst):
 				c.R.Violate("R-BOUND/req", p.Pos(op.Ast), f.Name, construct, fmt.Sprintf("timer duration %s is not a positive constant of at most %d s", op.Timer, rq.MaxConst/sec), nil)
 			default:
@@ -771,4 +774,99 @@ func ruleNoWaitForReady(c *Ctx) {
 	if !bad {
 		c.R.Hold("R-BOUND/ready", "-", "", "library RPCs fail fast", "no grpc.WaitForReady(true) / FailFast(false) call option is built anywhere in the module", false)
 	}
+}
+
+
+// timerRearmed: the select of a required bounded wait sits in a loop, its
+// timer arm receives from a timer made in the arm itself (time.After(d),
+// time.NewTimer(d).C: made again each time the select is entered), and another
+// arm can complete without leaving the loop. Returns a description of that
+// arm, or "" if the timer bounds the whole wait. A loop that consults the
+// clock itself (time.Since, time.Now, time.Until) is left alone.
+func (p *Prog) timerRearmed(f *Func, op *BlockOp) string {
+	sel, ok := op.Ast.(*ast.SelectStmt)
+	if !ok {
+		return ""
+	}
+	var loop ast.Node
+	for cur := p.Parent(sel); cur != nil && loop == nil; cur = p.Parent(cur) {
+		switch cur.(type) {
+		case *ast.ForStmt, *ast.RangeStmt:
+			loop = cur
+		case *ast.FuncLit, *ast.FuncDecl:
+			return ""
+		}
+	}
+	if loop == nil {
+		return ""
+	}
+	clock := false
+	// a clock test counts only as a condition: if/for condition that mentions time.Since / time.Now / time.Until
+	ast.Inspect(loop, func(x ast.Node) bool {
+		var cond ast.Expr
+		switch s := x.(type) {
+		case *ast.IfStmt:
+			cond = s.Cond
+		case *ast.ForStmt:
+			cond = s.Cond
+		}
+		if cond != nil {
+			ast.Inspect(cond, func(y ast.Node) bool {
+				if call, ok := y.(*ast.CallExpr); ok {
+					switch p.CalleeName(f, call) {
+					case "time.Since", "time.Now", "time.Until":
+						clock = true
+					}
+				}
+				return true
+			})
+		}
+		return true
+	})
+	if clock {
+		return ""
+	}
+	fresh := false
+	var looping string
+	for _, st := range sel.Body.List {
+		cc, ok := st.(*ast.CommClause)
+		if !ok || cc.Comm == nil {
+			continue
+		}
+		isTimer := false
+		ast.Inspect(cc.Comm, func(x ast.Node) bool {
+			if call, ok := x.(*ast.CallExpr); ok {
+				switch p.CalleeName(f, call) {
+				case "time.After", "time.NewTimer":
+					isTimer = true
+				}
+			}
+			return true
+		})
+		if isTimer {
+			fresh = true
+			continue
+		}
+		leaves := false
+		if n := len(cc.Body); n > 0 {
+			switch s := cc.Body[n-1].(type) {
+			case *ast.ReturnStmt:
+				leaves = true
+			case *ast.BranchStmt:
+				leaves = s.Tok == token.GOTO || (s.Tok == token.BREAK && s.Label != nil)
+			case *ast.ExprStmt:
+				if call, ok := s.X.(*ast.CallExpr); ok {
+					n := p.CalleeName(f, call)
+					leaves = n == "builtin.panic" || n == "os.Exit"
+				}
+			}
+		}
+		if !leaves && looping == "" {
+			looping = "the arm at " + p.Pos(cc)
+		}
+	}
+	if fresh && looping != "" {
+		return looping
+	}
+	return ""
 }
